@@ -147,6 +147,26 @@ PROPS = {
                         "two-writer interleavings (schedule-quantified)"],
         "assumptions": COMMON_ASSUMPTIONS + ["POSIX: rename is atomic, mkstemp names are unique"],
     },
+    "C16": {
+        "technique": TECH + "; file system as uninterpreted observation functions",
+        "level_text": "BaseTemplateFile.cook_check is proved to recompile from the file's current content "
+                      "iff the instance is uncompiled or (auto_reload and the mtime differs), and not even to "
+                      "read the file otherwise; TemplateLoader.load is proved to instantiate the template "
+                      "class once, with the absolute name or else the FIRST search-path entry under which the "
+                      "extension-completed name exists (ValueError iff none); PageTemplateFile.__init__ "
+                      "never mutates the caller's search path.",
+        "level_note": "Trusted: os.path.exists/isabs/join as pure observations of a file system that does "
+                      "not change during one call; mtime()/read()/cook() are external contracts of "
+                      "cook_check. Package-relative ('pkg:path') specs and search paths are excluded by "
+                      "precondition. The @cache decorator of load (same args => same instance) is not "
+                      "yet under contract.",
+        "units": [K("template.py::BaseTemplateFile.cook_check"), K("loader.py::TemplateLoader.load"),
+                  U('pyvc.frames', 'search_path_frame', 'search_path_frame')],
+        "not_decided": ["BaseTemplate.cook: macros of an earlier file version stay reachable "
+                        "(Macros.names / macros['x']) -- see known findings / DESIGN D5",
+                        "loader.cache decorator", "package-relative resolution"],
+        "assumptions": COMMON_ASSUMPTIONS + ["file system unchanged during one call"],
+    },
     "C18": {
         "technique": TECH + "; spelling independence by complete enumeration over statements x spellings "
                      "(differential compilation with the real compiler)",
